@@ -292,10 +292,10 @@ def run(tier: str) -> int:
         if tier == "thorough":
             stages.model_check(chk, "Pelt", base_consts(N=9, M=3, V=3, MaxBeta=4), INVS[:5] + ["TableAdmissible"],
                                wd=wd, label="A:simulate-N9-M3", init="InitPick", next_="NextPick",
-                               simulate="num=3000", depth=60, seed=chk.seed, workers=8)
+                               simulate="num=40", depth=60, seed=chk.seed, workers=8)   # ~1.2 s per behaviour at N = 9
             stages.model_check(chk, "Pelt", base_consts(N=10, M=2, V=3, MaxBeta=4), INVS[:5] + ["TableAdmissible"],
                                wd=wd, label="A:simulate-N10-M2", init="InitPick", next_="NextPick",
-                               simulate="num=2000", depth=70, seed=chk.seed + 1, workers=8)
+                               simulate="num=25", depth=70, seed=chk.seed + 1, workers=8)
         # stage B
         cases = []
         for label, consts, nsl, slices in STAGE_B[tier]:
